@@ -44,8 +44,12 @@ func zzRoundUpPow2(sh uint32, n uint32) uint32 { return ((n + (1 << sh) - 1) >> 
 
 func zzRoundUp(k, n uint32) uint32 { return (n + k - 1) / k * k }
 
+// zzLitSuffix is the type suffix given to the attribute literals of the current path ("", "u"
+// or "i": WGSL accepts all three spellings of the same number).
+var zzLitSuffix string
+
 func zzIntLit(v uint32) parser.Expr {
-	return &parser.Literal{Kind: parser.TokenIntLiteral, Value: fmt.Sprintf("%d", v)}
+	return &parser.Literal{Kind: parser.TokenIntLiteral, Value: fmt.Sprintf("%d", v) + zzLitSuffix}
 }
 
 func zzLog2(a uint32) uint32 {
@@ -62,6 +66,7 @@ func zzLog2(a uint32) uint32 {
 // (A = 2^k >= AlignOf(T), k <= 8; SizeOf(T) <= Z <= 65536): member offsets, struct size and
 // struct alignment equal the WGSL layout rules.
 func ZZ_C07_struct_attrs() {
+	zzLitSuffix = []string{"", "u", "i"}[zz.Choice("literal-suffix", 3)]
 	n := len(zzLeaves)
 	if !zz.Thorough() {
 		n = 11 // quick tier: scalars and vectors; matrices and atomics in the thorough tier
